@@ -55,6 +55,29 @@ fn table() -> Vec<Bad> {
     for ls in [&["1", "x"][..], &["a", "b"], &["1", "2x"], &["1", "2", "three"], &["0x10", "17"]] {
         push("non-numeric-keys", vec![a("keep-sorted", "asc"), a("keep-sorted-format", "numeric")], vec![a("keep-sorted", "asc")], ls, "");
     }
+    // every 2- and 3-line block over a small alphabet that has >= 2 keys of which at least one is not a number
+    // (incl. identical non-numeric neighbours, blank lines between keys, descending direction)
+    let alpha = ["1", "2", "x", "n/a", ""];
+    let mut seqs: Vec<Vec<&str>> = vec![];
+    for x in alpha {
+        for y in alpha {
+            seqs.push(vec![x, y]);
+            for z in alpha {
+                seqs.push(vec![x, y, z]);
+            }
+        }
+    }
+    for (k, sq) in seqs.iter().enumerate() {
+        let keys: Vec<&&str> = sq.iter().filter(|l| !l.is_empty()).collect();
+        let non_numeric = keys.iter().any(|l| l.parse::<f64>().is_err());
+        let dir = if k % 2 == 0 { "asc" } else { "desc" };
+        // only blocks in which a non-numeric key is reached before any out-of-order pair: otherwise the
+        // ordinary keep-sorted violation of the earlier pair is a legitimate (and failing) outcome
+        let reaches_non_numeric = crate::models::keep_sorted(sq, if dir == "asc" { crate::models::Dir::Asc } else { crate::models::Dir::Desc }, None, true) == crate::models::KsOutcome::NonNumeric;
+        if keys.len() >= 2 && non_numeric && reaches_non_numeric {
+            push("non-numeric-keys", vec![a("keep-sorted", dir), a("keep-sorted-format", "numeric")], vec![a("keep-sorted", dir), a("keep-sorted-format", "numeric"), a("keep-sorted-pattern", "^zzz$")], sq, "");
+        }
+    }
     for re in ["(", "[a-", "(?P<value>", "*a", "a{2,1}", "(?P<value>a)(?P<value>b)", "\\"] {
         push("regex:keep-sorted-pattern", vec![a("keep-sorted", "asc"), a("keep-sorted-pattern", re)], vec![a("keep-sorted", "asc")], &["a", "b"], "");
         push("regex:keep-unique", vec![a("keep-unique", re)], vec![a("keep-unique", "")], &["a", "b"], "");
@@ -130,7 +153,7 @@ fn run_tree(b: &Bad, control: bool, probe: &Probe) -> (String, Outcome) {
     let mut attrs = vec![a("name", "subject")];
     attrs.extend(if control { b.control_attrs.clone() } else { b.attrs.clone() });
     if b.extra_rules {
-        for (k, v) in [("line-count", Some("<50")), ("line-pattern", Some(".")), ("keep-unique", None)] {
+        for (k, v) in [("line-count", Some("<50")), ("line-pattern", Some("."))] {
             if !attrs.iter().any(|(n, _)| n == k) {
                 attrs.push((k.to_string(), v.map(String::from)));
             }
@@ -222,7 +245,7 @@ pub fn check(b: &Bad, probe: &Probe) -> Verdict {
 }
 
 pub fn run(run: &mut Run) {
-    run.rule = "enumerated: a table of malformations judged invalid by the statement (sort direction, sort format, non-numeric keys with >= 2 keys, 7 uncompilable regexes x 5 regex-bearing attributes on blocks with content, 15 bad line-count expressions, colon-less affects on a modified block, unknown severity on a violating block, empty/missing/directory/invalid-UTF-8/empty-file Lua scripts, empty AI condition, missing/empty API key) x placement (first/middle/last block; healthy file before/after/both; other satisfied rules on the block) x mode (scan with paths, interactive scan, new-file diff); each with a control run (malformation repaired) that must be healthy. Non-trivial = the malformed block is not alone/first. Quick runs a covering subset of the placement grid, thorough the full product.".into();
+    run.rule = "enumerated: a table of malformations judged invalid by the statement (sort direction, sort format, non-numeric keys with >= 2 keys (5 hand-picked blocks and every 2- and 3-line block over {1, 2, x, n/a, blank} with a non-numeric key, incl. identical neighbours), 7 uncompilable regexes x 5 regex-bearing attributes on blocks with content, 15 bad line-count expressions, colon-less affects on a modified block, unknown severity on a violating block, empty/missing/directory/invalid-UTF-8/empty-file Lua scripts, empty AI condition, missing/empty API key) x placement (first/middle/last block; healthy file before/after/both; other satisfied rules on the block) x mode (scan with paths, interactive scan, new-file diff); each with a control run (malformation repaired) that must be healthy. Non-trivial = the malformed block is not alone/first. Quick runs a covering subset of the placement grid, thorough the full product.".into();
     run.assumptions = vec!["valid spellings are never expected to fail: every table entry is invalid by the statement's own wording".into()];
     let thorough = run.tier == crate::engine::Tier::Thorough;
     let items = enumerated(thorough);
